@@ -24,7 +24,7 @@ import (
 var (
 	c06BS     = []string{"ok", "other"}
 	c06Comp   = []string{"ok", "wrong", "empty", "missing"}
-	c06Time   = []string{"now", "-1h", "+1h", "garbled", "empty", "missing"}
+	c06Time   = []string{"now", "-1h", "+1h", "garbled", "empty", "missing", "-30s"} // -30s: only under MaxLatency=5 (stale there, fresh by default)
 	c06Seq    = []string{"T", "T-1", "T+1", "missing", "empty", "garbled"}
 	c06PD     = []string{"absent", "Y", "N", "garbled"}
 	c06Orig   = []string{"absent", "earlier", "later", "garbled", "same"} // same: OrigSendingTime = SendingTime (replayed within the tick; only with 43=Y)
@@ -32,7 +32,7 @@ var (
 	c06States = []string{"normal", "recovering", "pending", "pending+recovering", "logout"}
 	// message-validation defects that need no dictionary (validator settings ValidateFieldsHaveValues /
 	// ValidateFieldsOutOfOrder, both default Y)
-	c06Val = []string{"none", "empty-body-field", "empty-header-field", "header-field-after-body"}
+	c06Val = []string{"none", "empty-body-field", "empty-header-field", "header-field-after-body", "missing-required-field", "unknown-msgtype"}
 )
 
 func c06HaveValues(cfg sessmc.Config) bool { return cfg.Extra["ValidateFieldsHaveValues"] != "N" }
@@ -136,6 +136,8 @@ func c06Build(w *sessmc.World, c c06Case) (*sessmc.In, time.Time) {
 		in.TimeSkew = -time.Hour
 	case "+1h":
 		in.TimeSkew = time.Hour
+	case "-30s":
+		in.TimeSkew = -30 * time.Second
 	case "garbled":
 		in.Set = append(in.Set, fixscan.Field{52, "2024-01-01"})
 	case "empty":
@@ -173,6 +175,10 @@ func c06Build(w *sessmc.World, c c06Case) (*sessmc.In, time.Time) {
 		in.Body = append(in.Body, fixscan.Field{58, ""})
 	case "empty-header-field":
 		in.Set = append(in.Set, fixscan.Field{115, ""})
+	case "missing-required-field":
+		in.Del = append(in.Del, 11)
+	case "unknown-msgtype":
+		in.Type, in.Body = "ZZ", nil
 	case "header-field-after-body":
 		// a body field first (types without a body would otherwise keep the tag inside the header), then the header tag
 		in.Body = append(in.Body, fixscan.Field{58, "text"}, fixscan.Field{129, "LATE"})
@@ -264,7 +270,11 @@ func c06Expected(c c06Case) (allowed []c06Allowed, gateClosed bool, mandatory in
 }
 
 func optional(c c06Case, allowed []c06Allowed) int {
-	return optionalTime(c) + optionalDict(c)
+	n := optionalTime(c) + optionalDict(c)
+	if v := c06Val[c.Val]; (v == "missing-required-field" || v == "unknown-msgtype") && c06ValDefect(c) != 0 {
+		n++ // only the gate is judged for these (the kind of reject is C15's subject)
+	}
+	return n
 }
 
 // optionalDict: reactions to a missing / ill-typed SendingTime that only the dictionary checks produce are
@@ -290,7 +300,7 @@ func optionalTime(c c06Case) int {
 		return 0
 	}
 	switch c06Time[c.Time] {
-	case "-1h", "+1h", "garbled", "missing":
+	case "-1h", "+1h", "-30s", "garbled", "missing":
 		return 1
 	case "empty":
 		if !c06HaveValues(c.Cfg) {
@@ -315,6 +325,14 @@ func c06ValDefect(c c06Case) int {
 	case "header-field-after-body":
 		if c06InOrder(c.Cfg) {
 			return 129
+		}
+	case "missing-required-field": // NewOrderSingle without ClOrdID: refused whenever a dictionary is configured
+		if c.Cfg.DataDictionary != "" {
+			return 11
+		}
+	case "unknown-msgtype":
+		if c.Cfg.DataDictionary != "" {
+			return 35
 		}
 	}
 	return 0
@@ -349,7 +367,7 @@ func c06ExpectedInner(c c06Case) (allowed []c06Allowed, gateClosed bool, mandato
 		gateClosed = true
 	}
 	switch c06Time[c.Time] {
-	case "-1h", "+1h":
+	case "-1h", "+1h", "-30s":
 		if latency {
 			allowed = append(allowed, c06Allowed{class: "rej+logout", reason: 10})
 			gateClosed = true
@@ -621,6 +639,8 @@ func c06Configs(quick bool) []sessmc.Config {
 			}
 		}
 	}
+	// an explicit latency window next to the explicit switch
+	out = append(out, sessmc.Config{BeginString: "FIX.4.2", Extra: map[string]string{"CheckLatency": "Y", "MaxLatency": "5"}})
 	// validator settings: each field-content check switched off on its own and both together, without a
 	// dictionary and with one whose field checks are off (RejectInvalidMessage=N)
 	for _, x := range []map[string]string{
@@ -648,7 +668,7 @@ func runC06(c *core.Ctx) {
 	} else {
 		c.SetDeadline(45 * time.Minute)
 	}
-	c.SetRule("cartesian product of header-field variants (BeginString 2 x SenderCompID 4 x TargetCompID 4 x SendingTime 6 x MsgSeqNum 6 x PossDupFlag 4 x OrigSendingTime 5 x MsgType 10 x validation defect 4 {none, empty body field, empty routing header field, header field after the body}) delivered to a real session in each of 5 states and each configuration; quick: at most two non-default axes per message, thorough: full product for two configurations and pairs elsewhere; distinct = distinct (config,state,message) triples")
+	c.SetRule("cartesian product of header-field variants (BeginString 2 x SenderCompID 4 x TargetCompID 4 x SendingTime 7 x MsgSeqNum 6 x PossDupFlag 4 x OrigSendingTime 5 x MsgType 10 x validation defect 6 {none, empty body field, empty routing header field, header field after the body, required body field missing, unknown MsgType (the last two with a dictionary)}) delivered to a real session in each of 5 states and each configuration; quick: at most two non-default axes per message, thorough: full product for two configurations and pairs elsewhere; distinct = distinct (config,state,message) triples")
 	c.Assume("oracle is set-valued: with several defects present any reaction mandated for one of them is accepted", "in-session Logon messages are judged only by the only-if part",
 		"Reject naming the field: RefTagID (FIX.4.2+) or the '(tag)' suffix of Text (FIX.4.0/4.1)", "SendingTime fresh to within a second; MaxLatency default 120 s; stale = 1 h",
 		"validator settings: ValidateFieldsOutOfOrder / ValidateFieldsHaveValues each N alone and together, with and without a dictionary (RejectInvalidMessage=N); a validation defect closes the gate exactly when its setting is on")
@@ -683,6 +703,14 @@ func runC06(c *core.Ctx) {
 												}
 												if c06Orig[or] == "same" && c06PD[pd] != "Y" {
 													continue
+												}
+												if c06Time[tm] == "-30s" && cfg.Extra["MaxLatency"] == "" {
+													continue
+												}
+												if v := c06Val[val]; v == "missing-required-field" || v == "unknown-msgtype" {
+													if cfg.DataDictionary == "" || nd != 1 || (v == "missing-required-field") != (c06Types[ty] == "D") || (v == "unknown-msgtype") != (c06Types[ty] == "ZZ") {
+														continue
+													}
 												}
 												if full && val != 0 && nd > 3 {
 													continue
